@@ -312,6 +312,42 @@ fn minors(rep: &mut Report) {
     minor!("DMat3::from_mat4_minor", DMat4, DMat3, f64, 4, |m, i, j| DMat3::from_mat4_minor(m, i, j));
 }
 
+/// mixed matrix x affine products: the affine operand acts as its homogeneous matrix, in the
+/// written order (exact on small integers)
+fn mixed(rep: &mut Report) {
+    use harness::refm::Mx;
+    macro_rules! mix {
+        ($M:ident, $A:ident, $S:ident, $R:expr) => {{
+            const R: usize = $R;
+            const H: usize = R + 1;
+            rep.sweep(concat!(stringify!($M), " x ", stringify!($A), "/mixed products/integer grid"), 4096, |idx, acc| {
+                let k = idx as usize;
+                let mut am = [<$S as Sc>::zero(); H * H];
+                let mut aa = [<$S as Sc>::zero(); R * H];
+                for e in 0..H * H { am[e] = <$S as Sc>::of((((k * 7 + e * 5 + (k >> 3) * e) % 7) as f64) - 3.0); }
+                for e in 0..R * H { aa[e] = <$S as Sc>::of((((k * 3 + e * e + (k >> 4) * (e + 1)) % 5) as f64) - 2.0); }
+                let m = <$M>::from_cols_array(&am);
+                let a = <$A>::from_cols_array(&aa);
+                let mm = Mx::from_cols(H, &am.iter().map(|x| x.f()).collect::<Vec<_>>());
+                let mut ah = Mx::ident(H);
+                for c in 0..H { for r in 0..R { ah.set(r, c, aa[c * R + r].f()); } }
+                let left: Vec<f64> = (m * a).to_cols_array().iter().map(|x| x.f()).collect();
+                let right: Vec<f64> = (a * m).to_cols_array().iter().map(|x| x.f()).collect();
+                let conv: Vec<f64> = <$M>::from(a).to_cols_array().iter().map(|x| x.f()).collect();
+                acc.eval(true, left.iter().fold(0, |h, x| hmix(h, x.to_bits())));
+                if left != mm.mul(&ah).cols() { acc.fail(concat!(stringify!($M), "*", stringify!($A)), format!("M={:?} A={:?} got={:?} want={:?}", am, aa, left, mm.mul(&ah).cols())); }
+                if right != ah.mul(&mm).cols() { acc.fail(concat!(stringify!($A), "*", stringify!($M)), format!("M={:?} A={:?} got={:?} want={:?}", am, aa, right, ah.mul(&mm).cols())); }
+                if conv != ah.cols() { acc.fail(concat!("From<", stringify!($A), "> for ", stringify!($M)), format!("A={:?} got={:?}", aa, conv)); }
+            });
+        }};
+    }
+    mix!(Mat3, Affine2, f32, 2);
+    mix!(Mat3A, Affine2, f32, 2);
+    mix!(DMat3, DAffine2, f64, 2);
+    mix!(Mat4, Affine3A, f32, 3);
+    mix!(DMat4, DAffine3, f64, 3);
+}
+
 fn f32_all_roundtrip(rep: &mut Report) {
     // every f32 bit pattern through every entry of the SIMD-packed layouts (thorough tier)
     macro_rules! rt {
@@ -360,6 +396,7 @@ fn main() {
     mat_laws!(rep, DMat3, f64, 3, DVec3);
     mat_laws!(rep, DMat4, f64, 4, DVec4);
     minors(&mut rep);
+    mixed(&mut rep);
     if rep.thorough() {
         f32_all_roundtrip(&mut rep);
     }
